@@ -1040,6 +1040,34 @@ func sectionShapes() {
 			}
 			compareMessage(&m, c, spec, how, fmt.Sprintf("root/decoded-again(%d)", round), map[string]any{"case": k, "round": round})
 		}
+		// the same cell object is changed (a builder re-used by its owner) and decoded once more: the
+		// reported hash is that of the cell as it is now, not of what it was at an earlier decode
+		if k%2 == 1 && len(c.Bits) < 1023 && err == nil {
+			var werr error
+			if pn := mon.Guard(func() { t.ResetCounters(); werr = t.WriteBit(k%4 == 1) }); pn == nil && werr == nil {
+				changed := cell.New(append(append([]bool(nil), c.Bits...), k%4 == 1), false, c.Refs...)
+				want := changed.Hash()
+				for _, how := range []string{"plain", "hasher"} {
+					var m tlb.Message
+					pn := mon.Guard(func() {
+						t.ResetCounters()
+						if how == "plain" {
+							err = tlb.Unmarshal(t, &m)
+						} else {
+							err = tlb.NewDecoder().Unmarshal(t, &m)
+						}
+					})
+					if pn != nil || err != nil {
+						continue // the changed cell need not be a message any more
+					}
+					R.Eval("m/changed/" + how + "/" + string(want[:8]))
+					if got := m.Hash(false); [32]byte(got) != want {
+						R.Violation("hash-mismatch@Message.Hash(false)/"+how+"/cell-changed-between-decodes", map[string]any{"case": k, "got": h32(got), "want": h32(want),
+							"hash_before_change": h32(c.Hash()), "shape": spec.class()})
+					}
+				}
+			}
+		}
 	}
 }
 
